@@ -8,7 +8,8 @@
    correspondences discharge them (C06: emit/read, C05: load = read).  The clauses of the
    property are evaluated directly on the implementation on every run (harness/props/c01.py). *)
 From Coq Require Import List ZArith Arith.
-From PC Require Import Base.Num Model.RoundTrip Proofs.RoundTrip.
+From PC Require Import Base.Atoms Base.Xml Base.Num Model.RoundTrip Proofs.RoundTrip.
+From PC Require Import Model.Emit Proofs.Emit Model.RoundTripDoc Proofs.RoundTripDoc.   (* the C06 family *)
 Import ListNotations.
 
 (* For ANY class whose write/load satisfies the law (load o write = norm, norm idempotent):
@@ -156,3 +157,126 @@ Example C01_document_nonvacuous :
   reload c (5, [[1; 2]; [3]]) = Some (5, [[0; 2]; [2]]) /\
   reload c (5, [[0; 2]; [2]]) = Some (5, [[0; 2]; [2]]).
 Proof. vm_compute. split; reflexivity. Qed.
+
+(* ==================================================================================
+   Linked to the C06 family (Model/Emit.v, Proofs/Emit.v): the WRITE/READ half of the class
+   codecs is no longer a hypothesis.  C06 proves  read_K (emit_K k) = Some k  for its XML-level
+   class codecs; here these become C01 laws, and the document theorem is proved for the
+   number-level document (float data through fmt7/parse32, everything else as in C06) from
+   H_num_stable alone.
+   These obligations depend on another family's files on purpose: if that family changes its
+   model so that they no longer check, C01 reports a broken obligation.
+   What REMAINS a hypothesis (not discharged anywhere in C01): the C05 half - that
+   pycollada's loader computes what read_K reads (load_K = read_K on written documents) - and
+   the tie emit_K = "constructor + save()" (C06's correspondence); numeric texts other than
+   float-source data are opaque tokens here (their str/float32 round trip is checked by the
+   direct oracle only); effects, images, asset are ids only in C06's Stage 1 document.
+   ================================================================================== *)
+
+Theorem C01_transform_codec_law : law (c06_codec emit_transform read_transform).
+Proof. split; [exact read_emit_transform | reflexivity]. Qed.
+Print Assumptions C01_transform_codec_law.
+
+(* recursive node trees with transforms, the five instance kinds and material bindings *)
+Theorem C01_node_codec_law : law (c06_codec emit_node read_node).
+Proof. split; [exact read_emit_node | reflexivity]. Qed.
+Print Assumptions C01_node_codec_law.
+
+Theorem C01_material_codec_law : law (c06_codec emit_material read_material).
+Proof. split; [exact read_emit_material | reflexivity]. Qed.
+Print Assumptions C01_material_codec_law.
+
+Theorem C01_prim_codec_law : law (c06_codec emit_prim read_prim).
+Proof. split; [exact read_emit_prim | reflexivity]. Qed.
+Print Assumptions C01_prim_codec_law.
+
+Theorem C01_token_source_codec_law : forall arr, law (c06_codec (emit_source arr) read_source).
+Proof. intro arr. split; [exact (read_emit_source arr) | reflexivity]. Qed.
+Print Assumptions C01_token_source_codec_law.
+
+(* classes whose writer is faithful on well-formed models only (canonical parameter order of
+   lights and cameras; top-level children of a visual scene are nodes; VERTEX inputs go
+   through <vertices>) *)
+Theorem C01_light_codec_law : lawP wf_light (c06_codec emit_light read_light).
+Proof. exact lawP_light. Qed.
+Print Assumptions C01_light_codec_law.
+
+Theorem C01_camera_codec_law : lawP wf_camera (c06_codec emit_camera read_camera).
+Proof. exact lawP_camera. Qed.
+Print Assumptions C01_camera_codec_law.
+
+Theorem C01_scene_codec_law : lawP wf_scene (c06_codec emit_scene read_scene).
+Proof. exact lawP_scene. Qed.
+Print Assumptions C01_scene_codec_law.
+
+Theorem C01_geometry_codec_law : forall arr, lawP wf_geometry (c06_codec (emit_geometry arr) read_geometry).
+Proof. exact lawP_geometry. Qed.
+Print Assumptions C01_geometry_codec_law.
+
+(* any wf-conditional law gives the generation-1 fixed point on well-formed models *)
+Theorem C01_gen1_fixed_point_wf : forall (M B : Type) (P : M -> Prop) (c : codec M B), lawP P c ->
+  forall m0 m1 m2, P m0 -> reload c m0 = Some m1 -> reload c m1 = Some m2 ->
+  P m1 /\ m2 = m1 /\ gen_bytes c m2 = gen_bytes c m1 /\ reload c m2 = Some m2.
+Proof. intros M B P c L. exact (gen1_fixed_P P c L). Qed.
+Print Assumptions C01_gen1_fixed_point_wf.
+
+Section NumberDocument.
+  Variable X : Type.
+  Variable fmt7 : X -> tok.          (* '%.7g' % x as a token of the written text *)
+  Variable parse32 : tok -> X.
+  Hypothesis H_num_stable : forall x, parse32 (fmt7 (parse32 (fmt7 x))) = parse32 (fmt7 x).
+  Variable arr : atom -> atom.
+
+  (* a float source, from numbers down to the <source> element and back *)
+  Theorem C01_number_source_codec_law : law (number_source_codec X fmt7 parse32 arr).
+  Proof. exact (law_number_source X fmt7 parse32 H_num_stable arr). Qed.
+
+  (* THE DOCUMENT (write/read half, no class hypotheses): geometries with number-level
+     sources, primitives, lights, cameras, materials, library nodes, visual scenes, default
+     scene.  PARTIAL with respect to the property: "load" is C06's independent reading
+     read_doc, not yet pycollada's loader (C05 half), see the comment above. *)
+  Theorem C01_number_doc_roundtrip_partial :
+    lawP (wf_ndoc X fmt7) (number_doc_codec X fmt7 parse32 arr).
+  Proof. exact (lawP_number_doc X fmt7 parse32 H_num_stable arr). Qed.
+
+  Theorem C01_number_doc_gen1_fixed_point_partial : forall d0 d1 d2,
+    wf_ndoc X fmt7 d0 ->
+    reload (number_doc_codec X fmt7 parse32 arr) d0 = Some d1 ->
+    reload (number_doc_codec X fmt7 parse32 arr) d1 = Some d2 ->
+    d1 = norm_doc X fmt7 parse32 d0 /\ d2 = d1 /\
+    gen_bytes (number_doc_codec X fmt7 parse32 arr) d2 = gen_bytes (number_doc_codec X fmt7 parse32 arr) d1.
+  Proof.
+    intros d0 d1 d2 W H1 H2.
+    destruct (gen1_fixed_P _ _ C01_number_doc_roundtrip_partial d0 d1 d2 W H1 H2) as [_ [E [Hb _]]].
+    split; [|split; assumption].
+    destruct C01_number_doc_roundtrip_partial as [L1 _]. destruct (L1 d0 W) as [E0 _].
+    unfold reload in H1. rewrite E0 in H1. inversion H1. reflexivity.
+  Qed.
+End NumberDocument.
+Print Assumptions C01_number_source_codec_law.
+Print Assumptions C01_number_doc_roundtrip_partial.
+Print Assumptions C01_number_doc_gen1_fixed_point_partial.
+
+(* non-vacuity: a well-formed number-level document (one geometry with a source and no
+   primitive, a light, a camera, a material, a library node, a scene) under the rounding
+   oracle of the examples above; its first reload is its normal form and that is a fixed point *)
+Definition ex_fmt_tok (x : nat) : tok := TInt (Z.of_nat x).
+Definition ex_parse_tok (t : tok) : nat := match t with TInt z => 2 * (Z.to_nat z / 2) | _ => 0 end.
+
+Example C01_number_doc_nonvacuous :
+  let src := {| n_id := 1000%N; n_data := [1; 2; 3; 7]; n_comps := [a_X; a_Y]; n_count := 4%Z; n_acount := 2%Z |} in
+  let g := {| ng_id := AStr 1001%N; ng_name := None; ng_sources := [src]; ng_vid := 1002%N; ng_vref := 1000%N;
+              ng_prims := []; ng_double_sided := true |} in
+  let d := {| nd_geometries := [g];
+              nd_lights := [{| l_id := AStr 1008%N; l_kind := LPoint; l_color := [TInt 1; TInt 0; TInt 0]; l_params := [] |}];
+              nd_cameras := [{| c_id := AStr 1009%N; c_kind := COrthographic; c_params := [] |}];
+              nd_images := [AStr 1010%N]; nd_effects := [AStr 1005%N];
+              nd_materials := [{| m_id := AStr 1003%N; m_name := AStr 1004%N; m_effect := 1005%N |}];
+              nd_nodes := [Node (Some (AStr 1006%N)) None [] [Inst IGeometry 1001%N []]];
+              nd_scenes := [{| sc_id := AStr 1007%N; sc_nodes := [Node None None [] [Inst INode 1006%N []]] |}];
+              nd_scene := Some 1007%N |} in
+  let c := number_doc_codec nat ex_fmt_tok ex_parse_tok (fun a => (a + 1)%N) in
+  reload c d = Some (norm_doc nat ex_fmt_tok ex_parse_tok d) /\
+  norm_doc nat ex_fmt_tok ex_parse_tok d <> d /\
+  reload c (norm_doc nat ex_fmt_tok ex_parse_tok d) = Some (norm_doc nat ex_fmt_tok ex_parse_tok d).
+Proof. vm_compute. repeat split; try reflexivity. discriminate. Qed.
